@@ -189,7 +189,7 @@ func (e *Engine) ensureBuilt(fn *ssa.Function) {
 	if fn.Origin() != nil {
 		o = fn.Origin()
 	}
-	if o.Pkg != nil && strings.HasPrefix(o.Pkg.Pkg.Path(), modulePath) {
+	if o.Pkg != nil && (strings.HasPrefix(o.Pkg.Pkg.Path(), modulePath) || inlineStdlib[o.String()]) {
 		o.Pkg.Build()
 	}
 }
@@ -206,7 +206,7 @@ func (e *Engine) inlinable(fn *ssa.Function) bool {
 }
 
 // small library functions that are inlined rather than modelled
-var inlineStdlib = map[string]bool{}
+var inlineStdlib = map[string]bool{"io.LimitReader": true}
 
 // findFunc resolves a contract key to the SSA function(s) it names (several
 // for generic functions: one per instance in the program).
